@@ -92,7 +92,7 @@ pub fn configs(tier: Tier) -> Vec<(Cfg, Plan)> {
             };
             // breadth-first over distinct model states reaches the deep states (3 live handles,
             // re-creation after the last drop) cheaply in every configuration
-            v.push((Cfg { pattern, variant, mode: Mode::History }, Plan { tree_depth: depth, finish_prefixes: false, frontier: Some(if q && variant.is_ipc() { (40, 4) } else if q { (200, 6) } else { (200, 8) }), split }));
+            v.push((Cfg { pattern, variant, mode: Mode::History }, Plan { tree_depth: depth, finish_prefixes: false, frontier: if q && variant == Variant::IpcThreadsafe { None } else { Some(if q && variant.is_ipc() { (20, 3) } else if q { (200, 6) } else { (200, 8) }) }, split }));
         }
     }
     for pattern in PATTERNS {
